@@ -56,7 +56,7 @@ def run(m, chk):
         "control points and weights of both operands (DEP-MUST field coverage), every refined copy is read (no dead refinement), operands are not modified, "
         "__ne__ is the negation of __eq__, the non-curve ⇒ False guard comes first. The 1e-9 semantics and invariance under elevation are not decided."
     )
-    chk.decides = ["DEP-MUST field coverage", "DEAD-REFINEMENT", "PURE", "__ne__ = not __eq__", "type guard first", 'REFINE-BOTH (comparison only after refinement or for equal knot vectors)', 'TOL-HOMOG (the quantity compared with the tolerance literal is a distance: degree 1 in the point difference, or the literal is the matching power of 1e-9)']
+    chk.decides = ["SWAP-SYMMETRIC (the product knot vector treats both operands alike)", "DEP-MUST field coverage", "DEAD-REFINEMENT", "PURE", "__ne__ = not __eq__", "type guard first", 'REFINE-BOTH (comparison only after refinement or for equal knot vectors)', 'TOL-HOMOG (the quantity compared with the tolerance literal is a distance: degree 1 in the point difference, or the literal is the matching power of 1e-9)']
     chk.not_decided = ["which norm the tolerance applies to", "invariance of the answer under knot insertion / degree elevation as values"]
     ctx = r.root(EQ)
     fi = ctx.fi
@@ -133,3 +133,6 @@ def run(m, chk):
         before = [n for n in r.stmt_nodes(ctx) if n.id < first.id and n.kind != "entry" and not (isinstance(n.ast, ast.Expr) and isinstance(n.ast.value, ast.Constant))]
         okg = bool(is_type and retf and not before)
     chk.ob("TYPE-GUARD", f"{EQ}: the first statement returns False for a non-curve", okg, loc=r.loc(ctx, first.ast) if first is not None else "", detail="" if okg else f"{EQ}: comparing with a non-curve does not return False before anything else is touched", func=EQ, construct="missing leading type guard")
+    from .extra import swap_symmetric
+
+    swap_symmetric(r, chk, "heavy.MathOperations.knotvector_mul")
